@@ -15,6 +15,10 @@ NA = {
 PENDING = "static check designed in DESIGN.md section 3 but not built yet; not claimed until it exists"
 
 CHECKS = {
+ "C14": dict(level="proof", technique="secrecy-class dataflow (ZERO/CONST/MIXED/purely-secret-derived) over object code on top of a stack-geometry abstract interpretation; argument roles derived from the repository's wrappers; callee summaries for C stack buffers",
+   text="All 143 CPU-specific AES entry points named by the 42 AES dispatchers (GCM 96, XTS 24, CBC 15, key expansion 8; ~460k instructions, 389 exits) are analysed to a fixpoint over all paths in the default -DSAFE_DATA build: every load through a key / key-schedule / GHASH-key / XTS-tweak argument is a secret source, classes propagate through registers (three segments per zmm register) and stack slots, and at every ret or tail jump no vector-register segment and no slot of a frame the function created may be purely secret-derived. The -O2 objects of aes/*.c are analysed with callee summaries (a stack buffer handed to a key-writing callee must be overwritten by stores the optimiser kept). The default build is checked to carry -DSAFE_DATA on every unit.",
+   note="Sufficient-condition analysis with a stated definition of 'secret': values that mix in caller data (AES state, GHASH accumulator, ciphertext) are not the property's listed secrets; general-purpose registers are outside the property. Trusted: MC operand tables; the role dictionary (parameter names -> key/tweak/data). The 64 KiB-of-stack clause is covered for frames the entry points create, not for callers' frames.",
+   ref="3/C14"),
  "C17": dict(level="proof", technique="premise checking for a written concurrency lemma: x86 constant propagation / CFG shape of the lock-cmpxchg protocol, IR must-pass-through and value-set analysis, whole-library reference ownership and call-graph reachability",
    text="The property quantifies over schedules; the check decides, on the FIPS_MODE build, every premise P1-P8 of the hand proof in DESIGN.md section 5 (exactly once, nobody early, same verdict, no livelock on x86-TSO): ownership of self_test_status by two functions (relocation scan of all objects), the single lock cmpxchg 2->3 with constant operands and an untouched eax on the winner's edge, the fast path, the store-free wait loop with exit 'status != 3' and a fresh load returned, one publisher reached only when the check returned neither 0 nor 1 and only after both suites, the published value a|b with both suites' return-value sets within {0,1}, the 0-iff-passed result mapping, and no isal_ function reachable from the suites (call graph through every dispatch candidate).",
    note="Trusted: x86-TSO, atomicity of lock cmpxchg, termination of the suites, the lemma itself (30 lines, in DESIGN.md). The check decides premises about code shape, not interleavings; a model checker would be the natural second opinion and is outside this technique family.",
